@@ -523,6 +523,17 @@ func (h *hintMgr) set(ki *KeyInfo, meta *Meta, pos Position, recSize uint32, rea
 	return h.setItem(it, pos.ChunkID, recSize)
 }
 
+// setGC records the new position of a record GC has moved from oldPos to pos. The collision table is
+// repointed only if it still names the record that was moved: a client may have written the key since
+// GC looked at it.
+func (h *hintMgr) setGC(ki *KeyInfo, meta *Meta, oldPos, pos Position, recSize uint32) (rotated bool) {
+	it := newHintItem(ki.KeyHash, meta.Ver, meta.ValueHash, Position{0, pos.Offset}, ki.StringKey)
+	it2 := *it
+	it2.Pos.ChunkID = pos.ChunkID
+	h.collisions.updatePos(&it2, oldPos)
+	return h.setItem(it, pos.ChunkID, recSize)
+}
+
 func (h *hintMgr) setItem(it *HintItem, chunkID int, recSize uint32) (rotated bool) {
 	rotated = h.chunks[chunkID].setItem(it, recSize)
 	if rotated {
